@@ -71,19 +71,19 @@ pub fn assert_inv<T: Q>(q: &T) {
 /// over the universe.
 #[derive(Clone, Copy)]
 pub struct Tab {
-    pub mask: u16,
+    pub mask: u32,
     pub cnt: usize,
     pub pay: [u8; U],
     pub prio: [u8; U],
     /// keys for which a second (payload, priority) pair is acceptable as well (where the
     /// property leaves the choice open)
-    pub altmask: u16,
+    pub altmask: u32,
     pub altpay: [u8; U],
     pub altprio: [u8; U],
     /// keys whose stored item value (the part outside Eq/Hash) is not this check's
     /// business: what happens to the item value of the element an update targets is
     /// property C12's, and only C12's instances compare it
-    pub anypay: u16,
+    pub anypay: u32,
 }
 
 impl Tab {
@@ -102,12 +102,12 @@ impl Tab {
 
     /// do not compare the stored item value of `k`
     pub fn any_payload(&mut self, k: u8) {
-        self.anypay |= 1u16 << k;
+        self.anypay |= 1u32 << k;
     }
 
     /// `k` may also hold (pay, prio)
     pub fn allow(&mut self, k: u8, pay: u8, prio: u8) {
-        self.altmask |= 1u16 << k;
+        self.altmask |= 1u32 << k;
         self.altpay[k as usize] = pay;
         self.altprio[k as usize] = prio;
     }
@@ -119,7 +119,7 @@ impl Tab {
         }
         let ku = k as usize;
         (self.pay[ku] == pay && self.prio[ku] == prio)
-            || (self.altmask & (1u16 << k) != 0 && self.altpay[ku] == pay && self.altprio[ku] == prio)
+            || (self.altmask & (1u32 << k) != 0 && self.altpay[ku] == pay && self.altprio[ku] == prio)
     }
 
     pub fn of_ghost<const N: usize>(g: &Ghost<N>) -> Self {
@@ -134,7 +134,7 @@ impl Tab {
 
     #[inline(always)]
     pub fn has(&self, k: u8) -> bool {
-        self.mask & (1u16 << k) != 0
+        self.mask & (1u32 << k) != 0
     }
 
     pub fn count(&self) -> usize {
@@ -153,7 +153,7 @@ impl Tab {
         if !self.has(k) {
             self.cnt += 1;
         }
-        self.mask |= 1u16 << k;
+        self.mask |= 1u32 << k;
         self.pay[k as usize] = pay;
         self.prio[k as usize] = prio;
     }
@@ -162,7 +162,7 @@ impl Tab {
         if self.has(k) {
             self.cnt -= 1;
         }
-        self.mask &= !(1u16 << k);
+        self.mask &= !(1u32 << k);
     }
 }
 
@@ -171,20 +171,20 @@ impl Tab {
 pub fn assert_cont<T: Q>(q: &T, want: &Tab) {
     let l = q.s_map_len();
     assert!(l == want.count(), "CONT: as many stored elements as the reference");
-    let mut seen: u16 = 0;
+    let mut seen: u32 = 0;
     let mut s = 0;
     while s < l {
         let (i, p) = q.s_slot(s).unwrap();
         assert!(i.key < KEYS, "CONT: key inside the universe");
-        assert!(seen & (1u16 << i.key) == 0, "CONT: no key stored twice");
-        seen |= 1u16 << i.key;
+        assert!(seen & (1u32 << i.key) == 0, "CONT: no key stored twice");
+        seen |= 1u32 << i.key;
         match want.get(i.key) {
             None => assert!(false, "CONT: stored key is in the reference"),
             Some((pay, prio)) => {
-                if want.altmask & (1u16 << i.key) == 0 {
+                if want.altmask & (1u32 << i.key) == 0 {
                     assert!(p.0 == prio, "CONT: same priority as the reference");
                     assert!(
-                        i.pay == pay || want.anypay & (1u16 << i.key) != 0,
+                        i.pay == pay || want.anypay & (1u32 << i.key) != 0,
                         "CONT: same stored item value as the reference"
                     );
                 } else {
@@ -198,7 +198,7 @@ pub fn assert_cont<T: Q>(q: &T, want: &Tab) {
 
 /// the public read API agrees with the reference for the key `k`
 pub fn assert_lookup<T: Q>(q: &mut T, want: &Tab, k: u8) {
-    if want.altmask & (1u16 << k) != 0 {
+    if want.altmask & (1u32 << k) != 0 {
         match q.get(&k) {
             None => assert!(false, "API: get presence agrees with the reference"),
             Some((i, p)) => assert!(i.key == k && want.accepts(k, i.pay, p.0), "API: get returns one of the pairs the reference allows"),
@@ -211,7 +211,7 @@ pub fn assert_lookup<T: Q>(q: &mut T, want: &Tab, k: u8) {
         (None, None) => {}
         (Some((i, p)), Some((pay, prio))) => {
             assert!(i.key == k, "API: get returns the item asked for");
-            assert!(i.pay == pay || want.anypay & (1u16 << k) != 0, "API: get returns the stored item value");
+            assert!(i.pay == pay || want.anypay & (1u32 << k) != 0, "API: get returns the stored item value");
             assert!(p.0 == prio, "API: get returns the stored priority");
         }
         _ => assert!(false, "API: get presence agrees with the reference"),
@@ -220,7 +220,7 @@ pub fn assert_lookup<T: Q>(q: &mut T, want: &Tab, k: u8) {
         q.get_priority(&k).map(|p| p.0) == w.map(|x| x.1),
         "API: get_priority agrees with the reference"
     );
-    let anyp = want.anypay & (1u16 << k) != 0;
+    let anyp = want.anypay & (1u32 << k) != 0;
     assert!(
         q.get_mut(&k).map(|(i, p)| (i.key, if anyp { 0 } else { i.pay }, p.0)) == w.map(|x| (k, if anyp { 0 } else { x.0 }, x.1)),
         "API: get_mut agrees with the reference"
